@@ -113,6 +113,18 @@ def run_case(ctx, name, params):
                 ctx.violation("sort/order_dependent", "rank of a cost vector depends on the input order",
                               {"costs": cs})
             ctx.count("cases")
+        # the same objects sorted again (other order, some costs changed, some members dropped): bookkeeping left over
+        # from the previous call must not leak into the new ranks
+        for again in range(2):
+            keep = [i for i in inds if r.random() < 0.8] or inds[:1]
+            r.shuffle(keep)
+            for i in keep:
+                if r.random() < 0.3:
+                    i.costs_signed = gen.cost_vector(r, m, "grid") + [i.costs_signed[-1]]
+            cs = [list(i.costs_signed) for i in keep]
+            sel.fast_nondominated_sorting(keep)
+            judge(ctx, cs, keep, "resorted")
+            ctx.count("resort_checks")
         ctx.sample({"size": size, "m": m, "costs": costs[:6], "ranks": oracles.ranks(costs)[:6]}, "generated")
     elif name == "insitu":
         from artap.operators import Selector
@@ -149,3 +161,4 @@ def requirements(ctx):
     ctx.require("sort_calls", 500)
     ctx.require("insitu_sort_calls", 10)
     ctx.require("order_independence_checks", 50)
+    ctx.require("resort_checks", 50)
